@@ -49,7 +49,25 @@ def subsets_cases(sig, r, fresh):
              'species': r.choice(SPECIES)}
 
 
+def _delegated_cases(tier, r):
+  """Cases of C02's check that exercise clauses this property shares with it."""
+  import importlib
+  mod = importlib.import_module('harness.props.C02')
+  n = 0
+  for tag, case in mod.cases(tier, r):
+    if 'deep' not in case and not case.get('delegate'):
+      n += 1
+      yield 'via_C02', {'delegate': 'C02', 'case': case}
+      if n >= (250 if tier == 'quick' else 4000):
+        return
+
+
 def cases(tier, r):
+  yield from _cases(tier, r)
+  yield from _delegated_cases(tier, r)
+
+
+def _cases(tier, r):
   for c in corpus():
     yield 'corpus', c
   fresh = argstore.Fresh()
@@ -83,6 +101,13 @@ def widen(tier, r):
 
 
 def execute(case):
+  if case.get('delegate'):
+    import importlib
+    mod = importlib.import_module('harness.props.' + case['delegate'])
+    real, req = mod.execute(case['case'])
+    real = dict(real)
+    real['__delegate'] = case['delegate']
+    return real, req
   if case.get('graph'):
     # nested Buildables inside lists, tuples, dicts and named tuples: compare fdl.build with
     # the direct evaluation (harness/graphs.py::ref_build); the model side is Graph.build
@@ -94,6 +119,10 @@ def execute(case):
 
 
 def compare(real, model):
+  if isinstance(real, dict) and real.get('__delegate'):
+    import importlib
+    inner = {k: v for k, v in real.items() if k != '__delegate'}
+    return importlib.import_module('harness.props.' + real['__delegate']).compare(inner, model)
   if 'ref_canon' in real:
     from harness.props import C02
     return C02.compare(real, model)
@@ -133,6 +162,9 @@ def expected_binding(sig, state):
 
 
 def oracle(case, real):
+  if case.get('delegate'):
+    import importlib
+    return importlib.import_module('harness.props.' + case['delegate']).oracle(case['case'], real)
   if 'ref_canon' in real:
     rb, ref = real['build'], real['ref_canon']
     if 'raised' in rb or (isinstance(ref, dict) and 'raised' in ref):
@@ -157,6 +189,10 @@ def oracle(case, real):
 
 
 def nontrivial(case, real):
+  if case.get('delegate'):
+    import importlib, json as _json
+    k = importlib.import_module('harness.props.' + case['delegate']).nontrivial(case['case'], real)
+    return None if k is None else ('via', _json.dumps(k, default=str))
   if 'ref_canon' in real:
     return ('nested', case['seed']) if 'raised' not in real['build'] else None
   if real['init'] == 'err':
